@@ -8,6 +8,9 @@ cd /verif
 if [ -n "$(git -C /repo status --porcelain)" ]; then echo "/repo is not clean; refusing" >&2; exit 2; fi
 patches=("$@"); [ ${#patches[@]} -eq 0 ] && patches=(/verif/mutants/*.patch)
 fail=0
+# evidence files are rewritten by every run; keep the clean-tree ones
+EVBAK=$(mktemp -d /verif/target/evidence-bak-XXXXXX); cp -a /verif/evidence/. "$EVBAK"/ 2>/dev/null
+restore_evidence() { rm -rf /verif/evidence; mkdir -p /verif/evidence; cp -a "$EVBAK"/. /verif/evidence/ 2>/dev/null; rm -rf "$EVBAK"; }
 for p in "${patches[@]}"; do
   p=$(readlink -f "$p")
   name=$(basename "$p" .patch); id=${name%%-*}
@@ -31,4 +34,5 @@ for p in "${patches[@]}"; do
   if [ -n "$(git -C /repo status --porcelain)" ]; then echo "/repo not clean after $name" >&2; exit 2; fi
 done
 rm -f /verif/replays/*.json
+restore_evidence
 exit $fail
